@@ -270,6 +270,8 @@ pub struct IoState {
     pub tripped: bool,
     /// which call kinds count (empty = all)
     pub only: Vec<char>,
+    /// every read delivers at most this many bytes (0 = no limit): a source that fragments its reads, not a fault
+    pub rfrag: usize,
 }
 
 #[derive(Clone)]
@@ -376,6 +378,9 @@ impl std::io::Read for Shared {
             None => {}
         }
         let mut s = self.0.borrow_mut();
+        if s.rfrag > 0 {
+            want = want.min(s.rfrag);
+        }
         let pos = s.pos.min(s.data.len());
         let n = want.min(s.data.len() - pos);
         buf[..n].copy_from_slice(&s.data[pos..pos + n]);
